@@ -24,6 +24,14 @@ NSEMS = {"Lock": 1, "RLock": 1, "Semaphore": 1, "BoundedSemaphore": 1, "Conditio
          "Queue": 3, "SimpleQueue": 2}
 
 
+# steps whose observation line carries the tracker incarnation of the acting member
+TRK_STEPS = ("spawn", "op", "opsig", "info", "new", "del", "pop", "pnew")
+
+
+def warn_cfg(case):
+    return (case.get("cfg") or {}).get("warn")
+
+
 def run_scenario(case, timeout=600):
     """run one scenario in a fresh runner subprocess; returns the runner's JSON"""
     env = dict(os.environ)
@@ -105,14 +113,25 @@ class E3TreeProp:
         for st, o in zip(case["steps"], out["obs"]):
             act = o.get("act") or {}
             warn = sum(1 for w in act.get("warnings", []) if RELAUNCH in w) + o.get("exit_warns", 0)
-            trk = o.get("trk") if st[0] in ("spawn", "op", "opsig", "info", "new", "del") else None
+            trk = o.get("trk") if st[0] in TRK_STEPS else None
+            thr = o.get("thr_trks")
+            if thr and set(thr) != {trk}:
+                trk = "/".join(sorted({str(t) for t in thr}))        # the threads of the member disagree
             child = o.get("child_trk") if st[0] == "spawn" else None
-            leaks = ",".join(leak_tokens(o.get("stderr"))) if st[0] == "end" else "*"
+            imp = o.get("import")
+            if imp:
+                warn += sum(1 for w in imp.get("warnings", []) if RELAUNCH in w)
+                if imp.get("trk") != child or not imp.get("ok"):
+                    child = f"{child}@import:{imp.get('trk') if imp.get('ok') else imp.get('exc')}"
+            # with warnings turned into errors the tracker's (guarded) "leaked" warning is swallowed: not compared
+            leaks = ",".join(leak_tokens(o.get("stderr"))) if st[0] == "end" and not warn_cfg(case) else "*"
             line = fmt_obs(trk, child, warn, o, leaks)
             if o.get("skipped"):
                 line = "skipped(" + o["skipped"] + ") " + line
             if act.get("ok") is False:
                 line = f"raised:{act.get('exc')} " + line
+            if act.get("errors"):
+                line = f"raised-in-thread:{len(act['errors'])} " + line
             lines.append(line)
         return lines
 
@@ -126,8 +145,8 @@ class E3TreeProp:
             m = re.match(r"(.* )leaks=(.*)$", last)
             if m:
                 toks = sorted(t for t in m.group(2).split(",") if t)
-                last = m.group(1) + "leaks=" + (",".join(toks) if st[0] == "end" else "*")
-            if st[0] not in ("spawn", "op", "opsig", "info", "new", "del"):
+                last = m.group(1) + "leaks=" + (",".join(toks) if st[0] == "end" and not warn_cfg(case) else "*")
+            if st[0] not in TRK_STEPS:
                 last = re.sub(r"^trk=\S+", "trk=-", last)
             lines.append(("bad-model-step " if bad else "") + last)
         return lines
